@@ -23,7 +23,7 @@ CASE_TIMEOUT = 900
 
 
 def cases(tier, seed):
-    na, nb, nc = (110, 150, 40) if tier == "quick" else (1200, 2000, 300)
+    na, nb, nc = (110, 150, 40) if tier == "quick" else (3000, 5000, 800)
     out = []
     for mode, n in (("a", na), ("b", nb), ("c", nc)):
         for i in range(n):
